@@ -657,6 +657,162 @@ func bRealRouteDeleted(n, del int) {
 	}
 }
 
+// ---------------------------------------------------------------- part B2
+//
+// several admin operations of different kinds are applied while one dispatcher is held
+// after it loaded the snapshot: what that dispatcher then does must be what ONE version
+// of the table (before the operations, or after the first k of them) prescribes.
+
+type tver struct {
+	black  []string    // blacklisted prefixes
+	rws    [][2]string // literal rewriters old -> new (all occurrences)
+	routes [][2]string // capture routes: key, prefix filter
+}
+
+func (v tver) clone() tver {
+	return tver{append([]string(nil), v.black...), append([][2]string(nil), v.rws...), append([][2]string(nil), v.routes...)}
+}
+
+// process returns route key -> delivered line for one metric under this version.
+func (v tver) process(name, rest string) map[string]string {
+	out := map[string]string{}
+	for _, b := range v.black {
+		if strings.HasPrefix(name, b) {
+			return out
+		}
+	}
+	for _, rw := range v.rws {
+		name = strings.Replace(name, rw[0], rw[1], -1)
+	}
+	for _, r := range v.routes {
+		if strings.HasPrefix(name, r[1]) {
+			out[r[0]] = name + rest
+		}
+	}
+	return out
+}
+
+func partB2() {
+	n := mon.N(150, 6000)
+	words := []string{"foo", "bar", "baz", "qux"}
+	for h := 0; h < n; h++ {
+		r := mon.NewRng(mon.Seed(), 186, uint64(h))
+		t := mon.NewTable("none", "none", false, "/nonexistent")
+		caps := map[string]*mon.CaptureRoute{}
+		var cur tver
+		var hist []string
+		addRoute := func() {
+			k := fmt.Sprintf("m%d", len(caps))
+			pf := r.Pick([]string{"", "", "foo", "bar", "ba", "q"})
+			c := mon.NewCaptureRoute(k, mustMatcher(pf, "", ""), nil)
+			caps[k] = c
+			t.AddRoute(c)
+			cur.routes = append(cur.routes, [2]string{k, pf})
+			hist = append(hist, fmt.Sprintf("addRoute %s prefix=%q", k, pf))
+		}
+		op := func() {
+			switch r.Intn(6) {
+			case 0:
+				addRoute()
+			case 1:
+				if len(cur.routes) > 0 {
+					i := r.Intn(len(cur.routes))
+					hist = append(hist, "delRoute "+cur.routes[i][0])
+					t.DelRoute(cur.routes[i][0])
+					cur.routes = append(cur.routes[:i:i], cur.routes[i+1:]...)
+				}
+			case 2:
+				b := r.Pick(words)
+				m := mustMatcher(b, "", "")
+				t.AddBlacklist(&m)
+				cur.black = append(cur.black, b)
+				hist = append(hist, "addBlack prefix "+b)
+			case 3:
+				if len(cur.black) > 0 {
+					i := r.Intn(len(cur.black))
+					hist = append(hist, fmt.Sprintf("delBlack %d", i))
+					t.DelBlacklist(i)
+					cur.black = append(cur.black[:i:i], cur.black[i+1:]...)
+				}
+			case 4:
+				o, nw := r.Pick(words), r.Pick(words)+r.Pick([]string{"", "x"})
+				rw, err := rewriter.New(o, nw, "", -1)
+				if err == nil {
+					t.AddRewriter(rw)
+					cur.rws = append(cur.rws, [2]string{o, nw})
+					hist = append(hist, fmt.Sprintf("addRewriter %s %s -1", o, nw))
+				}
+			case 5:
+				if len(cur.rws) > 0 {
+					i := r.Intn(len(cur.rws))
+					hist = append(hist, fmt.Sprintf("delRewriter %d", i))
+					t.DelRewriter(i)
+					cur.rws = append(cur.rws[:i:i], cur.rws[i+1:]...)
+				}
+			}
+		}
+		for i := 0; i < r.Range(1, 3); i++ {
+			addRoute()
+		}
+		for i := 0; i < r.Range(0, 4); i++ {
+			op()
+		}
+		setup := len(hist)
+		versions := []tver{cur.clone()}
+		name := r.Pick(words) + "." + r.Pick(words)
+		rest := fmt.Sprintf(" %d 1", u())
+		res.LogCase("B2 history %d", h)
+		nops := r.Range(2, 4)
+		ok, _, _ := interleave("dispatch-after-load", func() { t.Dispatch([]byte(name + rest)) }, func() {
+			for i := 0; i < nops; i++ {
+				op()
+				versions = append(versions, cur.clone())
+			}
+		})
+		res.Eval(1)
+		if !ok {
+			continue
+		}
+		got := map[string][]string{}
+		for k, c := range caps {
+			if l := c.Lines(); len(l) > 0 {
+				got[k] = l
+			}
+		}
+		match := -1
+		for vi, v := range versions {
+			want := v.process(name, rest)
+			same := len(want) == len(got)
+			for k, l := range want {
+				if g := got[k]; len(g) != 1 || g[0] != l {
+					same = false
+				}
+			}
+			if same {
+				match = vi
+				break
+			}
+		}
+		if match < 0 {
+			var wants []string
+			for vi, v := range versions {
+				wants = append(wants, fmt.Sprintf("T%d:%v", vi, v.process(name, rest)))
+			}
+			res.Violate("mixed-table-versions", fmt.Sprintf("metric %q dispatched by a dispatcher held while %d admin operations were applied was delivered as %v, which no single version of the table prescribes (%s)", name, nops, got, strings.Join(wants, " ")),
+				map[string]interface{}{"setup": hist[:setup], "operations_while_held": hist[setup:], "metric": name, "delivered": got})
+		} else {
+			distinct := map[string]bool{}
+			for _, v := range versions {
+				distinct[fmt.Sprint(v.process(name, rest))] = true
+			}
+			if len(distinct) > 1 {
+				res.NonTrivial(fmt.Sprintf("B2/%d", h))
+			}
+		}
+		res.Count("multi_op_interleavings", 1)
+	}
+}
+
 // ---------------------------------------------------------------- part C
 
 func partC() {
@@ -1006,6 +1162,8 @@ func main() {
 	if sh == 0 {
 		partA()
 		partB()
+		partB2()
+		curHolder.Store((*holder)(nil))
 	}
 	partC()
 	partE()
